@@ -167,6 +167,7 @@ type Exec struct {
 	// environment models
 	env         map[string]string
 	mutexes2    map[mutexKey]*mutexState
+	pools       map[mutexKey][]Value
 	timerObjs   map[*Obj]*vtimer
 	ufCount     int
 	intrUsed    map[string]int
